@@ -937,6 +937,49 @@ auth_scenarios(long long seed)
 				vf_distinct("rogue_static_ecdh", "%s/%04x/%d/%d auth_types=%x", kxn[kx], v, victim, g, rcc.auth_types);
 			}
 		}
+		/* the server's validator judging the client's chain: every error verdict, a key of the wrong type, another
+		   key, a key without the signature usage; with and without BR_OPT_TOLERATE_NO_CLIENT_AUTH */
+		{
+			static const int sverd[] = { BR_ERR_X509_NOT_TRUSTED, BR_ERR_X509_EXPIRED, BR_ERR_X509_BAD_SIGNATURE, BR_ERR_X509_WEAK_PUBLIC_KEY, 33 };
+			int q, tol;
+			for (tol = 0; tol < 2; tol ++) for (q = 0; q < 8; q ++) {
+				tp_cfg cc, sv; uint16_t sb[1]; vf_rng r;
+				scenario sc2 = sc;
+				char nm[100];
+				int static_ecdh;
+				sc2.cauth = 1 + ((kx + q) & 1);
+				vf_rng_init(&r, seeds_key, 60 + (uint64_t)q + 16 * (uint64_t)tol);
+				cfg_for(&sc2, &cc, &sv, sb, &r, 0);
+				if (tol) { sv.flags_set = 1; sv.flags = BR_OPT_TOLERATE_NO_CLIENT_AUTH; }
+				vs.verdict = -1; vs.pkey_kind = 0; vs.usages = -1;
+				if (q < 5) vs.verdict = sverd[q];
+				else if (q == 5) vs.pkey_kind = 1;
+				else if (q == 6) vs.pkey_kind = 4;
+				else vs.usages = ((kx == TP_KX_ECDH_RSA || kx == TP_KX_ECDH_ECDSA) && sc2.cauth == 2) ? BR_KEYTYPE_SIGN : BR_KEYTYPE_KEYX;   /* the usage the authentication method does NOT need */
+				run_scenario(&sc2, NULL, 0, 0, &o, NULL, NULL, pre_reset_vscript, &vs, &cc, &sv);
+				/* static ECDH with the client's certificate: the note in the header says failure to validate prevents success */
+				static_ecdh = (kx == TP_KX_ECDH_RSA || kx == TP_KX_ECDH_ECDSA) && sc2.cauth == 2;
+				snprintf(nm, sizeof nm, "server-validator-%s-client-chain:case%d%s", tol ? "tolerant" : "strict", q, static_ecdh ? ":static-ecdh" : "");
+				if (!tol) {
+					expect_refused(nm, &o, 1);
+				} else if (q < 5) {
+					/* rejected chain + tolerance: the connection keeps on (documented), unless static ECDH was used */
+					snprintf(tp_case, sizeof tp_case, "%s auth-case=%s", scen_desc, nm);
+					vf_stat("auth_cases", 1);
+					if (static_ecdh) {
+						if (o.s_ready) TP_VIOL("unauthenticated-peer-accepted:server", "static ECDH with a client chain the validator rejected completed");
+					} else if (!o.c_ready || !o.s_ready || o.c_err || o.s_err) {
+						TP_VIOL("auth-control-failed", "BR_OPT_TOLERATE_NO_CLIENT_AUTH: handshake did not keep on after the client chain was rejected");
+					} else vf_stat("auth_controls", 1);
+				} else if (q == 6) {
+					/* chain accepted, but the key returned is not the one that signed: wrong signature terminates regardless of the flag */
+					expect_refused(nm, &o, 1);
+				} else {
+					/* accepted chain with an unusable key (type / usage): documented neither way under tolerance: executed, not judged */
+					vf_stat("auth_unjudged_tolerant_unusable_key", 1);
+				}
+			}
+		}
 		/* a session ID learnt from a failed attempt must not be resumable */
 		{
 			int fk, ps;
